@@ -7,6 +7,7 @@ import (
 	"strings"
 	"sync"
 	"testing"
+	"time"
 
 	"github.com/gofiber/fiber/v3"
 	"github.com/gofiber/fiber/v3/middleware/idempotency"
@@ -41,6 +42,7 @@ type Case struct {
 	FailSerial []int // handler executions (by serial) that return an error
 	Memory     bool  // default in-memory storage + MemoryLock without yield points (only the handler yields)
 	Retain     bool  `json:",omitempty"` // the external storage keeps the slices it is given (like gofiber's memory driver)
+	Reuse      bool  `json:",omitempty"` // request contexts are recycled as a server does: a request that starts after another one finished is served on that one's RequestCtx
 }
 
 type fLock struct {
@@ -172,7 +174,7 @@ func check(c Case) vk.Verdict {
 		ctx.Response().Header.Add("X-Rep", "a")
 		ctx.Response().Header.Add("X-Rep", fmt.Sprintf("b%d", my))
 		ctx.Cookie(&fiber.Cookie{Name: "s", Value: fmt.Sprint(my)})
-		e := &exec{serial: my, g: g, key: ctx.Get("X-Idempotency-Key")}
+		e := &exec{serial: my, g: g, key: strings.Clone(ctx.Get("X-Idempotency-Key"))} // a copy: the header value lives in the (recycled) request buffer
 		var err error
 		switch {
 		case failSerial[my]:
@@ -195,8 +197,29 @@ func check(c Case) vk.Verdict {
 	}
 	app.All("/", handler)
 	h := app.Handler()
+	var free []*fasthttp.RequestCtx
+	resps := make([]*fasthttp.RequestCtx, len(c.Conc)+len(c.Seq))
 	doReq := func(g int, r Req) *fasthttp.RequestCtx {
 		ctx := &fasthttp.RequestCtx{}
+		if c.Reuse {
+			mu.Lock()
+			if n := len(free); n > 0 {
+				ctx, free = free[n-1], free[:n-1]
+			}
+			mu.Unlock()
+			defer func() {
+				// hand the answer out as a copy and recycle the context with its buffers
+				out := &fasthttp.RequestCtx{}
+				ctx.Response.CopyTo(&out.Response)
+				ctx.Request.Reset()
+				ctx.Response.Reset()
+				ctx.ResetUserValues()
+				mu.Lock()
+				free = append(free, ctx)
+				mu.Unlock()
+				resps[g] = out
+			}()
+		}
 		ctx.Request.Header.SetMethod(r.Method)
 		ctx.Request.SetRequestURI("/")
 		if r.Key != "" {
@@ -206,7 +229,6 @@ func check(c Case) vk.Verdict {
 		h(ctx)
 		return ctx
 	}
-	resps := make([]*fasthttp.RequestCtx, len(c.Conc)+len(c.Seq))
 	all := append(append([]Req(nil), c.Conc...), c.Seq...)
 	if st != nil {
 		st.Sched = s
@@ -214,7 +236,11 @@ func check(c Case) vk.Verdict {
 	lk.s = s
 	for g, r := range c.Conc {
 		g, r := g, r
-		s.Spawn(g, func() { resps[g] = doReq(g, r) })
+		s.Spawn(g, func() {
+			if out := doReq(g, r); !c.Reuse {
+				resps[g] = out
+			}
+		})
 	}
 	pi := 0
 	res := s.Run(len(c.Conc), func(ready []int) int {
@@ -238,7 +264,18 @@ func check(c Case) vk.Verdict {
 	lk.s = nil
 	for i, r := range c.Seq {
 		g := len(c.Conc) + i
-		resps[g] = doReq(g, r)
+		done := make(chan struct{})
+		go func() {
+			defer close(done)
+			if out := doReq(g, r); !c.Reuse {
+				resps[g] = out
+			}
+		}()
+		select {
+		case <-done:
+		case <-time.After(5 * time.Second):
+			return vk.Failf("%s\nsequential request %d %+v (nothing else is in flight) was not answered within 5s", ctxs, g, r)
+		}
 	}
 	// ---- oracle
 	protected := func(r Req) bool { return r.Key != "" && r.Method != "GET" }
@@ -330,6 +367,9 @@ func check(c Case) vk.Verdict {
 	if c.Memory {
 		v.Classes = append(v.Classes, "memory")
 	}
+	if c.Reuse {
+		v.Classes = append(v.Classes, "recycled-request-contexts")
+	}
 	return v
 }
 
@@ -349,11 +389,12 @@ func genCase(t *rapid.T) Case {
 	default:
 		c.Keep = []string{"Set-Cookie"}
 	}
-	n := rapid.IntRange(2, 4).Draw(t, "nconc")
+	c.Reuse = rapid.Bool().Draw(t, "reuse")
+	n := rapid.IntRange(2, 5).Draw(t, "nconc")
 	for i := 0; i < n; i++ {
 		c.Conc = append(c.Conc, genReq(t))
 	}
-	c.Picks = rapid.SliceOfN(rapid.IntRange(0, 3), 0, 60).Draw(t, "picks")
+	c.Picks = rapid.SliceOfN(rapid.IntRange(0, 4), 0, 60).Draw(t, "picks")
 	ns := rapid.IntRange(0, 3).Draw(t, "nseq")
 	for i := 0; i < ns; i++ {
 		c.Seq = append(c.Seq, genReq(t))
